@@ -250,6 +250,9 @@ class Sim(object):
         self._streak = 0
         self.func_stalls = {}    # qualname -> [[k-th call, steps after entry, duration]]
         self.func_calls = {}
+        self.func_watch = set()
+        self.func_len = {}
+        self._entry_steps = {}
         self.step_triggers = []  # [thread role substring, thread-local step, callback] fired once (event context rules apply)
         self._gap_is_skip = True
         self._line_countdown = self._draw_line_gap()
@@ -690,6 +693,11 @@ class Sim(object):
             flag = self._classify(code)
         if flag == 0:
             return None
+        if self.func_watch:
+            qn = getattr(code, "co_qualname", code.co_name)
+            if qn in self.func_watch and event == "call":
+                # measured length (in steps of the calling thread) of the watched functions: the longest completed call
+                self._entry_steps[id(frame)] = (qn, self.cur.steps)
         if self.func_stalls:
             # function-entry anchored stalled-thread fault: the k-th call of a named
             # function is descheduled j steps after entry
@@ -700,11 +708,19 @@ class Sim(object):
                 self.func_calls[qn] = n
                 t = self.cur
                 for ent in list(plan):
-                    # [k, j, dur]: the k-th call; [None, j, dur, t]: the first call at or after simulated time t
+                    # [k, j, dur]: the k-th call; [None, j, dur, t]: the first call at or after simulated time t;
+                    # [None, j, dur, t, m]: the m-th call at or after t (entries of one group share the countdown)
+                    if ent[0] is None and len(ent) > 4 and self.now >= ent[3] and ent[4] > 1:
+                        ent[4] -= 1
+                        continue
                     if ent[0] == n or (ent[0] is None and len(ent) > 3 and self.now >= ent[3]):
                         plan.remove(ent)
                         sp = [p for p in (t.stall_plan or []) if p[0] < (1 << 59)]
-                        sp.append((t.steps + ent[1], ent[2]))
+                        j = ent[1]
+                        if isinstance(j, float):
+                            # a fraction of the function's measured length (fault placement along a baseline)
+                            j = 1 + int(j * self.func_len.get(qn, 200))
+                        sp.append((t.steps + j, ent[2]))
                         t.stall_plan = sorted(sp)
                         self.probe("func_stall:" + qn)
         if flag == 2:
@@ -712,6 +728,13 @@ class Sim(object):
         return self._ltrace
 
     def _ltrace(self, frame, event, arg):
+        if event == "return" and self._entry_steps:
+            ent = self._entry_steps.pop(id(frame), None)
+            if ent is not None:
+                n_ = self.cur.steps - ent[1]
+                if n_ > self.func_len.get(ent[0], 0):
+                    self.func_len[ent[0]] = n_
+            return self._ltrace
         if event == "line" or event == "opcode":
             t = self.cur
             self.steps += 1
